@@ -496,6 +496,47 @@ class Ctx:
                     break
         return cur
 
+    def probe_for_failing_input(self, st, mism, info):
+        """The correspondence broke but the property's predicate holds on every explored trace: search for a concrete failing
+        input.  A stream may offer `probe(case, impl_trace, model_trace) -> [cases]`: continuations of a disagreeing case that
+        drive the implementation from the state it is in to a point where the property can be judged (release everything, issue
+        fresh requests, settle).  Returns True iff a probe makes the property's predicate fail (reported as property-fails)."""
+        probe = getattr(st, "probe", None)
+        if not probe:
+            return False
+        probes = []
+        for c, i, m in sorted(mism, key=lambda x: len(x[0]))[:24]:
+            try:
+                for pc in probe(c, i, m):
+                    if pc not in probes:
+                        probes.append(pc)
+            except Exception:  # noqa: BLE001  (a probe that cannot be built is no probe)
+                continue
+        if not probes:
+            return False
+        pi, pm = self.run_both(st, probes)
+        info["probes"] = len(probes)
+        seen = set()
+        for pc, ii, mm in sorted(zip(probes, pi, pm), key=lambda x: len(x[0])):
+            if st.monitor(pc, ii, mm):
+                continue
+            key = st.finding_key(pc, ii, mm)
+            if key in seen:
+                continue
+            seen.add(key)
+            c2 = self.shrink_case(st, pc)
+            f, i2, m2 = self.fails_property(st, c2)
+            if not f:
+                c2, i2, m2 = pc, ii, mm
+            self.report("property-fails", {"stream": st.name, "mode": st.mode, "case": c2, "impl_trace": i2, "model_trace": m2,
+                                           "original_case": pc, "n_mismatches": len(mism),
+                                           "what": "implementation and model disagree on %d cases; continuing one of them (probe) "
+                                                   "the property's predicate is false on the implementation's trace" % len(mism)},
+                        key=st.finding_key(c2, i2, m2) or key)
+            if len(seen) >= 2:
+                break
+        return bool(seen)
+
     def run_stream(self, st):
         corpus = load_corpus(self.pid, st.name)
         if getattr(st, "prepare", None):
@@ -546,6 +587,8 @@ class Ctx:
                             key=key)
                 if len(seen) >= 5:
                     break
+        elif mism and self.probe_for_failing_input(st, mism, info):
+            pass
         elif mism:
             c, i, m = sorted(mism, key=lambda x: len(x[0]))[0]
             self.report("correspondence-broken",
